@@ -54,11 +54,20 @@ type v22Transfer struct {
 }
 
 // v22SenderCode: one transfer host call per entry, memo = [0xA7, tag, k, 0...].
-func v22SenderCode(tag byte, ts []v22Transfer) []byte {
+func v22SenderCode(tag byte, ts []v22Transfer, spin uint64) []byte {
 	a := &refpvm.Asm{}
 	a.Label()
 	a.Jump(1)
 	a.Label() // pc 5: accumulate
+	if spin > 0 {
+		// a countdown before the first transfer: makes the service's accumulation long enough to overlap with its neighbours'
+		a.LoadImm64(11, spin)
+		a.Fallthrough()
+		loop := a.Label()
+		a.TwoRegImm(149, 11, 11, ^uint64(0), 1) // add_imm_64 ω11 = ω11 - 1
+		a.BranchImm(82, 11, 0, 0, loop)         // branch_ne_imm ω11 != 0
+		a.Label()
+	}
 	data := make([]byte, 160)
 	data[0], data[1] = 0xA7, tag
 	for k, t := range ts {
@@ -118,6 +127,8 @@ type v22Scenario struct {
 	eta       types.EntropyBuffer
 	desc      string
 	maxToOne  int
+	idMode    int
+	spin      uint64
 }
 
 func v22Gen(r vh.R) v22Scenario {
@@ -125,16 +136,40 @@ func v22Gen(r vh.R) v22Scenario {
 	sc.delta = types.ServiceAccountState{}
 	nr := 1 + r.IntN(2)
 	ns := 2 + r.IntN(3)
+	// service identifiers: small ones, or the full 32-bit range a created service really gets (incl. the values a conversion
+	// through rune / int32 / uint16 would fold together: above 0x10FFFF, 0xD800..0xDFFF, at and above 2^31, equal low halves)
 	ids := r.Perm(60)
+	idMode := r.IntN(3)
+	used := map[types.ServiceID]bool{999: true}
+	idOf := func(k int) types.ServiceID {
+		for {
+			id := types.ServiceID(100 + k)
+			switch idMode {
+			case 1:
+				id = types.ServiceID(r.Uint64())
+			case 2:
+				id = []types.ServiceID{0xD800, 0xDC00, 0x110000, 0x7FFFFF00, 0x80000000, 0xFFFFFE00, 0x10000, 0x20000}[r.IntN(8)] + types.ServiceID(r.IntN(200))
+				if r.IntN(3) == 0 {
+					id = id&0xFFFF0000 | 0x0101 // same low half as its siblings
+				}
+			}
+			if !used[id] && id != 0xFFFFFFFF {
+				used[id] = true
+				return id
+			}
+			k += 60
+		}
+	}
+	spin := []uint64{0, 0, 3000, 30000}[r.IntN(4)]
 	for i := 0; i < nr; i++ {
-		id := types.ServiceID(100 + ids[i])
+		id := idOf(ids[i])
 		sc.receivers = append(sc.receivers, id)
 		sc.delta[id] = v22Account(v22ReceiverCode(), 1<<40)
 	}
 	perRecv := map[types.ServiceID]int{}
 	var plan []string
 	for i := 0; i < ns; i++ {
-		id := types.ServiceID(100 + ids[nr+i])
+		id := idOf(ids[nr+i])
 		sc.senders = append(sc.senders, id)
 		m := 5 + r.IntN(16)
 		var ts []v22Transfer
@@ -146,12 +181,12 @@ func v22Gen(r vh.R) v22Scenario {
 			ts = append(ts, v22Transfer{to: to, amount: uint64(1 + r.IntN(50)), gas: uint64(30 + r.IntN(10))})
 			perRecv[to]++
 		}
-		sc.delta[id] = v22Account(v22SenderCode(byte(i+1), ts), 1<<40)
+		sc.delta[id] = v22Account(v22SenderCode(byte(i+1), ts, spin), 1<<40)
 		plan = append(plan, fmt.Sprintf("s%d:%d", id, m))
 		var w types.WorkReport
 		copy(w.PackageSpec.Hash[:], r.Bytes(32))
 		w.CoreIndex = types.CoreIndex(i % types.CoresCount)
-		w.Results = []types.WorkResult{{ServiceID: id, AccumulateGas: types.Gas(5000), Result: types.WorkExecResult{Type: types.WorkExecResultOk, Data: r.Bytes(4)}}}
+		w.Results = []types.WorkResult{{ServiceID: id, AccumulateGas: types.Gas(5000 + 2*spin + uint64(r.IntN(3))*1000), Result: types.WorkExecResult{Type: types.WorkExecResultOk, Data: r.Bytes(4)}}}
 		sc.reports = append(sc.reports, w)
 	}
 	for _, n := range perRecv {
@@ -170,7 +205,8 @@ func v22Gen(r vh.R) v22Scenario {
 	for i := range sc.eta {
 		copy(sc.eta[i][:], r.Bytes(32))
 	}
-	sc.desc = fmt.Sprintf("receivers %v, senders %s", sc.receivers, strings.Join(plan, " "))
+	sc.desc = fmt.Sprintf("receivers %v, senders %s, countdown %d", sc.receivers, strings.Join(plan, " "), spin)
+	sc.idMode, sc.spin = idMode, spin
 	return sc
 }
 
@@ -388,6 +424,10 @@ func TestVerifC22(t *testing.T) {
 			h.Inc("repeated_runs_compared")
 		}
 		h.Inc("rounds")
+		h.Inc([]string{"rounds_with_small_service_ids", "rounds_with_random_32_bit_service_ids", "rounds_with_boundary_service_ids"}[sc.idMode])
+		if sc.spin > 0 {
+			h.Inc("rounds_with_long_running_senders")
+		}
 		if sc.maxToOne >= 13 {
 			h.Inc("rounds_with_more_than_a_dozen_transfers_to_one_receiver")
 		}
